@@ -814,6 +814,7 @@ func runOne(c *fakecluster.Cluster, run sysRun) (out runOut) {
 	waitStarted := map[string]time.Time{}
 	waitLimit := map[string]time.Duration{}
 	var lastAction event.ResourceAction
+	lastEventAt := time.Now()
 	timeoutCh := time.After(20 * time.Second)
 loop:
 	for {
@@ -827,6 +828,9 @@ loop:
 				continue
 			}
 			ce := canonEvent(e)
+			prevEventAt := lastEventAt
+			lastEventAt = time.Now()
+			_ = prevEventAt
 			mu.Lock()
 			out.Events = append(out.Events, ce)
 			switch e.Type {
@@ -842,7 +846,9 @@ loop:
 			case event.ActionGroupType:
 				if e.ActionGroupEvent.Status == event.Started {
 					if e.ActionGroupEvent.Action == event.WaitAction {
-						waitStarted[e.ActionGroupEvent.GroupName] = time.Now()
+						// the time the PREVIOUS event was received: that receive completed before the runner could send this
+						// Started event, hence before the phase's timer was created — a sound lower bound whatever the scheduler does
+						waitStarted[e.ActionGroupEvent.GroupName] = prevEventAt
 						waitLimit[e.ActionGroupEvent.GroupName] = tmo
 						if lastAction == event.ApplyAction {
 							waitLimit[e.ActionGroupEvent.GroupName] = rtmo
@@ -853,8 +859,7 @@ loop:
 				}
 			case event.WaitType:
 				if e.WaitEvent.Status == event.ReconcileTimeout && out.Anomaly == "" {
-					// the Started event was read before the phase's timer was created: the elapsed time seen here is an upper
-					// bound of nothing and a lower bound of the configured timeout
+					// elapsed time since a moment that certainly precedes the creation of the phase's timer
 					if t0, ok := waitStarted[e.WaitEvent.GroupName]; ok {
 						if el, lim := time.Since(t0), waitLimit[e.WaitEvent.GroupName]; el < lim {
 							out.Anomaly = fmt.Sprintf("early-timeout: %s reported Timeout after %dms, configured %dms", e.WaitEvent.GroupName, el.Milliseconds(), lim.Milliseconds())
